@@ -36,6 +36,13 @@ def handle (op : String) (a : List String) : Option String :=
       let enc := (encapKeyCodec (fun _ _ => true)).enc ⟨UInt8.ofNat id, kem, pk, kdf, aead⟩
       some s!"ok {hxv enc} {hxv (nameKeyId enc)}"
     | _, _, _, _, _ => none
+  -- c18.namekey <serialized name key>
+  | "c18.namekey", [b] => (parseV b).map fun b =>
+      match (encapKeyCodec (fun _ _ => true)).dec b with
+      | some (k, _) =>
+        let enc := (encapKeyCodec (fun _ _ => true)).enc k
+        s!"ok {hxv enc} {hxv (nameKeyId enc)}"
+      | none => "err"
   | _, _ => none
 
 end PatVerif.Drive.C18
